@@ -98,6 +98,7 @@ func checkC10(c *Ctx) {
 	ruleBounds(c, pf)
 	ruleVocabularies(c, pf)
 	ruleUnknownFields(c, pf)
+	ruleNoSilentSkip(c, pf, "R10.12")
 	ruleRejectionTotal(c, pf)
 	ruleConfigOnlyFromParser(c, pf, "R10.6")
 	// R10.7 a value that fails to convert is a rejection, never a silent fallback to something the file does not say
@@ -1268,4 +1269,79 @@ func decodeTargetRules(c *Ctx) {
 		return
 	}
 	ruleUnknownFields(c, pf)
+}
+
+// ruleNoSilentSkip: R10.12. The tables of the file (keys, axes, deadzones, action keys) are maps the parser ranges over:
+// every iteration either stores an entry into a destination map or ends the parse with an error. An iteration that goes
+// back to the loop header without a store (`continue` under some condition) drops what the file states, silently.
+func ruleNoSilentSkip(c *Ctx, pf *parserFacts, rule string) {
+	n := 0
+	for _, fn := range pf.regionFuncs() {
+		for _, hb := range fn.Blocks {
+			for _, in := range hb.Instrs {
+				nx, ok := in.(*ssa.Next)
+				if !ok || nx.IsString {
+					continue
+				}
+				rg, ok := nx.Iter.(*ssa.Range)
+				if !ok {
+					continue
+				}
+				if _, isMap := rg.X.Type().Underlying().(*types.Map); !isMap {
+					continue
+				}
+				ifi, ok := hb.Instrs[len(hb.Instrs)-1].(*ssa.If)
+				if !ok {
+					continue
+				}
+				body := ifi.Block().Succs[0]
+				// does the loop body store anything at all? (a pure search loop is not a table conversion)
+				stores := map[*ssa.BasicBlock]bool{}
+				for _, b := range fn.Blocks {
+					if !body.Dominates(b) {
+						continue
+					}
+					for _, bi := range b.Instrs {
+						if _, isMU := bi.(*ssa.MapUpdate); isMU {
+							stores[b] = true
+						}
+					}
+				}
+				if len(stores) == 0 {
+					continue
+				}
+				n++
+				tname := pf.view(fn).Term(rg.X).String()
+				if i := strings.LastIndex(tname, "."); i >= 0 && i+1 < len(tname) {
+					tname = tname[i+1:]
+				}
+				key := fmt.Sprintf("%s/table-loop(%s)/every-entry-stored-or-rejected", shortFn(fn), truncate(tname, 40))
+				// the header reachable from the body entry without passing a storing block?
+				seen := map[*ssa.BasicBlock]bool{}
+				stack := []*ssa.BasicBlock{body}
+				skipped := false
+				for len(stack) > 0 && !skipped {
+					b := stack[len(stack)-1]
+					stack = stack[:len(stack)-1]
+					if seen[b] || stores[b] {
+						continue
+					}
+					seen[b] = true
+					for _, s := range b.Succs {
+						if s == hb {
+							skipped = true
+						}
+						if body.Dominates(s) {
+							stack = append(stack, s)
+						}
+					}
+				}
+				c.Check(!skipped, rule, key, c.P.Pos(rg.Pos()), "every iteration over the table stores an entry or leaves the parser with an error",
+					"an iteration over a table of the file can go on to the next entry without storing anything: what the file states for that entry is dropped without an error")
+			}
+		}
+	}
+	if n == 0 {
+		c.Trivial(rule, "table-loops", "-", "no loop over a table of the file that stores its entries directly (the conversion is delegated to callbacks): not judged by this rule")
+	}
 }
